@@ -45,10 +45,11 @@ class EnumV(AV):
 
 
 class PyTuple(AV):
-    __slots__ = ("items",)
+    __slots__ = ("items", "fields")
 
-    def __init__(self, items) -> None:
+    def __init__(self, items, fields=None) -> None:
         self.items = tuple(items)
+        self.fields = fields  # field names of a typing.NamedTuple instance (it is a tuple), else None
 
     def __repr__(self) -> str:
         return f"PyTuple{self.items!r}"
